@@ -17,6 +17,9 @@
 (*   sched-start-not-at-previous-end    contiguous, non-overlapping,       *)
 (*                                      failure does not advance           *)
 (*   row-label-not-window-start         rows are labelled with the start   *)
+(*                                      (queries without a time column of  *)
+(*                                      their own: ev.own = FALSE), for    *)
+(*                                      windows of any width               *)
 (*   row-count-not-window-content       ...of the window they summarise    *)
 (*                                      (source points every Period s)     *)
 (*   window-advanced-by-initial-failure a failed execution does not advance *)
@@ -46,7 +49,7 @@ Clauses(st, ev, checkCount) ==
             THEN {"sched-start-not-at-previous-end"} ELSE {})
     \cup (IF ev.kind = "sched" /\ st.free /\ ev.e - ev.s < st.fl
             THEN {"window-advanced-by-initial-failure"} ELSE {})
-    \cup (IF ev.status = "ok" /\ \E i \in 1..Len(ev.rows) : ev.rows[i].t # ev.s
+    \cup (IF ev.status = "ok" /\ ~ev.own /\ \E i \in 1..Len(ev.rows) : ev.rows[i].t # ev.s
             THEN {"row-label-not-window-start"} ELSE {})
     \cup (IF checkCount /\ ev.status = "ok" /\ \E i \in 1..Len(ev.rows) : ev.rows[i].n # Count(ev.s, ev.e)
             THEN {"row-count-not-window-content"} ELSE {})
